@@ -1,5 +1,5 @@
 """C13 TL2 readers tolerate schema evolution and non-minimal encodings (engine A; structure from the interpreter's byte roles)."""
-from .. import codec
+from .. import codec, refdiff
 
 RULE = ("packages generated from the repository schemas and random SchemaGen schemas. Outermost object (schema-free): size in huge (0xff) form, an empty object as a huge-form "
         "zero size => accepted, exactly consumed (suffix check), same value; declared size 1-4 bytes beyond the input => rejected. At depth: for values on which generated "
@@ -27,7 +27,16 @@ def run(ctx):
             t, _ = codec.run_mode(ctx, p, "c13deep", env=env, what="c13deep on %s/%s" % (p.schema, p.config))
             for k, v in t.items():
                 tot["deep_" + k] = tot.get("deep_" + k, 0) + v
-    ctx.cov["rule"] = RULE
+    # schema-aware: equal, non-canonical encodings built by the independent TL2 encoder (RefCodec-TL2 in alternative mode)
+    rtot = {}
+    for i in [-1] + list(range(12 if thorough else 3)):
+        cnt, _ = refdiff.run_schema(ctx, i, values=40 if thorough else 20, fills=0, mutations=0, label="c13r", tl2=True, tl2alt=True, report=("R2",))
+        for k, v in cnt.items():
+            rtot[k] = rtot.get(k, 0) + v
+    ctx.cov.setdefault("counters", {}).update({"ref_" + k: v for k, v in rtot.items()})
+    ctx.cov["rule"] = RULE + (" Schema-aware: for values of random schemas and a fixed shapes schema, RefCodec-TL2 writes equal but non-canonical encodings (an empty field given explicitly "
+                              "with its presence bit, explicit zero presence masks at the end of a body, empty objects / arrays / Maybe as 00, 01 00 or the 9-byte zero size) => accepted, "
+                              "exactly consumed, rewritten to the canonical bytes.")
     ctx.count(tot.get("values", 0) + tot.get("deep_values_with_structure", 0))
     nested = sum(v for k, v in tot.items() if k.startswith("deep_huge-form-") and k.endswith("-nested"))
     ctx.cov.setdefault("counters", {})["deep_nested_non_minimal_forms"] = nested
@@ -40,3 +49,4 @@ def run(ctx):
     ctx.require("explicit zero masks", tot.get("deep_empty-object-as-explicit-zero-mask", 0), 100)
     ctx.require("unknown trailing fields", tot.get("deep_unknown-trailing-fields-outermost", 0), 200)
     ctx.require("nested oversize", tot.get("deep_nested-size-beyond-parent", 0), 200)
+    ctx.require("alternative encodings from the reference", rtot.get("tl2_alternative_encodings", 0), 300)
